@@ -300,7 +300,7 @@ def run(tier, seed, t0):
     for nm, ops, desc in HIST_QUICK + (HIST_THOROUGH if tier == "thorough" else []):
         try:
             analyse(e3, nm, ops, desc)
-        except sym.Unsupported as ex:
+        except _e3.ENC_ERRORS as ex:
             e3.error(nm, "MIR->SMT encoding of PayloadWriter", ex)
     finish("C09", tier, seed, list(e3.res.obligations), t0, ASSUME + ["E3 callee models: " + ", ".join(sorted(e3.models))], sorted(e3.functions),
            explanation="MIR->SMT sequential encoding of PayloadWriter::{new,write_*,commit,payloads} and Payloads::{next_payload,drop} over length-abstract byte buffers")
